@@ -60,7 +60,8 @@ def mutate_bytes(r: random.Random, wire: bytes) -> tuple[bytes, str]:
         if i > 0:
             b[:i] = ver
     elif kind == "header":
-        line = r.choice([b"NoColonHere", b": novalue-name", b"Bad Name: x", b"X-A: a\x00b", b"X-A: a\rb", b"Content-Length: -5",
+        line = r.choice([b"Content-Length: " + b"9" * r.choice([4299, 4301, 5000, 20000]), b"Content-Length: " + b"0" * 6000 + b"5",
+                         b"NoColonHere", b": novalue-name", b"Bad Name: x", b"X-A: a\x00b", b"X-A: a\rb", b"Content-Length: -5",
                          b"Content-Length: 1, 2", b"Content-Length: abc", b"Transfer-Encoding: gzip", b"Transfer-Encoding: chunked, chunked",
                          b"Content-Length: 3\r\nContent-Length: 4", b"X-\xff: y", b"Connection: \x7f", b"X" * 300 + b": v"])
         i = b.find(b"\r\n")
@@ -395,6 +396,24 @@ def part_realsock(flavor, case, J):
     """Real sockets, real back-ends (not simulated): exception class per provoked cause."""
     from .. import realsock
     cnt = J.cnt
+    # timeouts that certainly expire (zero) on the asynchronous back-ends: the class that reaches the caller
+    for backend in ("anyio", "trio"):
+        for cfg, want in realsock.ASYNC_LEDGER_EXPECT.items():
+            if want is None:
+                continue
+            res = realsock.async_timeout_ledger(backend, cfg, cfg != "connect-zero")
+            exc = res.get("exc")
+            cnt["real_socket_runs"] = cnt.get("real_socket_runs", 0) + 1
+            cnt["oracle_documented"] += 1
+            cnt["oracle_class"] += 1
+            J.sigs.add(f"realsock|{backend}|{cfg}|{type(exc).__name__}")
+            if exc is None:
+                continue  # (the timeout did not expire: C16's business)
+            if not documented(exc):
+                J.v(f"undocumented:realsock:{backend}:{exc_name(exc)}", f"{cfg}: {exc!r}", {"backend": backend, "config": cfg})
+            elif not isinstance(exc, want):
+                J.v(f"wrong-class:realsock:{backend}:{cfg}:{type(exc).__name__}", f"{cfg}: {exc!r}, expected {want.__name__}",
+                    {"backend": backend, "config": cfg})
     backend = case["backend"]
     for b in realsock.BEHAVIOURS:
         res = realsock.run_one(backend, b)
